@@ -22,11 +22,12 @@ import time
 import vlib
 import serverlib as sl
 
-THEOREMS = ["C08_deadlock_free", "C08_terminates", "C08_live", "C08_tasks_never_blocked", "C08_old_deadlocks",
+THEOREMS = ["C08_deadlock_free", "C08_terminates", "C08_live", "C08_tasks_never_blocked", "C08_protocol_is_source", "C08_old_deadlocks",
             "C08_trace_checker_sound"]
 TRUSTED = [
     "Coq 8.16.1 kernel (coqc; vm_compute only in C08_old_deadlocks / the non-vacuity example); no axioms (Print Assumptions: closed under the global context)",
     "the LTS of coq/model/Sched.v as a model of server.rs / from_proto.rs / analysis.rs: which lock operations each thread performs in which order (validated on every run by trace inclusion of hook-H2 traces of the real server), std::sync::RwLock (a reader is blocked by a writer inside and, depending on an arbitrary policy, by a queued writer; a writer by anybody inside), std::sync::Mutex, salsa 0.16 (an input write / synthetic_write takes the revision lock exclusively and waits for every snapshot; Snapshot holds it shared until dropped; no cancellation) - read in salsa-0.16.1/src/runtime.rs, not verified",
+    "tools/translate/t_server.py (rigid-subset reader of server.rs / from_proto.rs; regenerates gen/GenServerSkel.v on every run; C08_protocol_is_source proves the model's skeletons and scripts equal to it); trace inclusion of real hook traces cross-checks it",
     "fairness: the tokio blocking pool eventually runs every spawned task and the OS schedules every runnable thread (the theorems speak about maximal schedules); async-lsp dispatches incoming messages in order on one task",
     "panics inside a task (e.g. a request for a document that was never opened) are outside the model (C03 inventory)",
     "hook H2 (pure additions under cfg(tablegen_lsp_verif)) logs at the places named in server.rs / from_proto.rs; the harness harness/src/bin/lspdrive.rs, lib/serverlib.py (binding of pool threads to tasks), this driver",
@@ -191,7 +192,7 @@ def effective(out):
 def run(ctx):
     t0 = time.time()
     bindir = vlib.build_harness(True, bins=["lspdrive"])
-    fails = vlib.proof_step(ctx, "TG.Props.C08", THEOREMS, ["props/C08.vo"], trusted_base=TRUSTED, translators=[])
+    fails = vlib.proof_step(ctx, "TG.Props.C08", THEOREMS, ["props/C08.vo"], trusted_base=TRUSTED, translators=["t_server"])
     exe = vlib.build_model("server")
     t_setup = time.time() - t0
 
